@@ -196,6 +196,36 @@ pub fn order(depth: usize) -> Value {
             }
         }
     }
+    // a key list LONGER than the order the input already has, with ties on that prefix: a primary key with duplicate values
+    // (they are not rejected), rows in two RowSets; and an ordered, limited subquery ordered again by more keys
+    for e in engines() {
+        let part1: Vec<Row> = vec![vec![Some(1), Some(9)], vec![Some(0), Some(5)], vec![Some(2), Some(7)], vec![Some(1), Some(3)]];
+        let part2: Vec<Row> = vec![vec![Some(1), Some(5)], vec![Some(0), Some(1)], vec![Some(2), Some(2)], vec![Some(0), Some(8)]];
+        let all: Vec<Row> = part1.iter().chain(part2.iter()).cloned().collect();
+        for (t, cols) in [("dk", "a int primary key, b int"), ("dn", "a int, b int")] {
+            let mut sqls = vec![format!("create table {t}({cols})"), insert(t, &part1), insert(t, &part2)];
+            let q0 = sqls.len();
+            let lists: Vec<(&str, Vec<(usize, bool)>)> = vec![("a, b", vec![(0, false), (1, false)]), ("a, b desc", vec![(0, false), (1, true)]), ("a desc, b", vec![(0, true), (1, false)])];
+            let mut wants: Vec<Vec<Vec<String>>> = vec![];
+            for (ks, keys) in &lists {
+                let mut m = all.clone(); m.sort_by(|x, y| cmp_keys(x, y, keys, true));
+                sqls.push(format!("select a, b from {t} order by {ks}")); wants.push(strs(&m));
+                sqls.push(format!("select a, b from {t} order by {ks} limit 3 offset 2")); wants.push(strs(&m[2..5]));
+                // the six rows with a <= 1, ordered by a only, then ordered again by the longer list
+                let mut six: Vec<Row> = all.iter().filter(|r| r[0] <= Some(1)).cloned().collect(); six.sort_by(|x, y| cmp_keys(x, y, keys, true));
+                if !keys[0].1 { sqls.push(format!("select a, b from (select a, b from {t} order by a limit 6) s order by {ks}")); wants.push(strs(&six)); }
+            }
+            tried += wants.len() as u64;
+            let outs = match run(e, &sqls, &[]) { Ok(o) => o, Err(err) => return found_raw(tried, e, &sqls, &[], sqls.len() - 1, "the session to run".into(), err) };
+            for (j, want) in wants.iter().enumerate() {
+                match &outs[q0 + j] {
+                    Ok(got) if got == want => {}
+                    Ok(got) => { if let Some(v) = found(tried, e, &sqls, &[], q0 + j, format!("{want:?}"), format!("{got:?}")) { return v; } },
+                    Err(err) => { if let Some(v) = found(tried, e, &sqls, &[], q0 + j, format!("{want:?}"), format!("error: {err}")) { return v; } },
+                }
+            }
+        }
+    }
     done(tried)
 }
 
@@ -861,6 +891,35 @@ pub fn ddl(depth: usize) -> Value {
                 other => { if let Some(v) = found(tried, e, &sqls, &[3], 3, "table d0 = [[1, 1]] after the reopen".into(), format!("{other:?}")) { return v; } }
             },
             Err(err) => return found_raw(tried, e, &sqls, &[3], 3, "the database to reopen after the (possibly refused) statement".into(), err),
+        }
+    }
+    // one DELETE that removes thousands of rows of one RowSet (a delete-vector file of many KiB), one long VARCHAR value: both
+    // have to survive two reopen cycles unchanged
+    {
+        let rows: Vec<String> = (0..3000).map(|k| format!("({k},{})", k % 5)).collect();
+        let long_s = "y".repeat(70_000);
+        let sqls: Vec<String> = vec![
+            "create table big(k int primary key, v int)".into(), format!("insert into big values {}", rows.join(",")),
+            "delete from big where k >= 4".into(),
+            "create table lv(id int, s varchar)".into(), format!("insert into lv values (1, '{long_s}'), (2, 'ab'), (3, '')"),
+            "select count(*), sum(k) from big".into(), format!("select id from lv where s = '{long_s}'"), "select id from lv where s = 'ab'".into(),
+            "select count(*), sum(k) from big".into(), format!("select id from lv where s = '{long_s}'"), "select id from lv where s = 'ab'".into(),
+            "select count(*), sum(k) from big".into(), format!("select id from lv where s = '{long_s}'"), "select id from lv where s = 'ab'".into(),
+        ];
+        let reopen = vec![8usize, 11];
+        tried += 9;
+        let short = |i: usize| -> Vec<String> { sqls.iter().map(|q| if q.len() > 200 { format!("{} ... ({} characters)", &q[..120], q.len()) } else { q.clone() }).enumerate().map(|(j, q)| if j == i { q } else { q }).collect() };
+        let outs = match run(e, &sqls, &reopen) { Ok(o) => o, Err(err) => return found_raw(tried, e, &short(0), &reopen, sqls.len() - 1, "the session (bulk delete, long value, two reopen cycles) to run".into(), err) };
+        for i in 0..5 { if let Err(err) = &outs[i] { return found_raw(tried, e, &short(i), &reopen, i, "statement to succeed".into(), err.clone()); } }
+        for round in 0..3 {
+            let want = [vec![vec!["4".to_string(), "6".to_string()]], vec![vec!["1".to_string()]], vec![vec!["2".to_string()]]];
+            for (j, w) in want.iter().enumerate() {
+                let idx = 5 + 3 * round + j;
+                match &outs[idx] {
+                    Ok(got) if got == w => {}
+                    other => return found_raw(tried, e, &short(idx), &reopen, idx, format!("{w:?}"), format!("{other:?}")),
+                }
+            }
         }
     }
     // histories that are always run, whatever the sampling picks: a table dropped before a later one that has rows (table ids
